@@ -1,5 +1,6 @@
 import Pi2.TautThm
 import Pi2.TautTie
+import Pi2.StageThm
 /-!
 # C09 — the tautology prover decides correctly
 
@@ -12,7 +13,19 @@ Thin restatements of `Pi2.TautThm`.
 `Pi2/Gen/PyTaut.lean` is regenerated on every run from `tautology.py` (`vlib/transtaut.py`: the normal-form classes and the
 DATA SLICE of every stage, statement by statement; proof objects are opaque).  `Pi2/TautTie.lean` ties the generated
 functions to the model; `prover_text_is_the_model` and `prover_text_decides` restate that here: C09 holds of the prover
-AS WRITTEN (data part; the proof objects are C10 and the replay in the check).
+AS WRITTEN (data part).
+
+THE PROOF OBJECTS.  `Pi2/Gen/StageProofs.lean` is regenerated on every run from the same text (`vlib/transstage.py`: the
+stage functions `to_conj_form`, `propag_neg`, `to_cnf`, `to_clauses` (+ its two loops, + `imp_trans_match1/2`) and
+`start_resolution_algorithm` / `prove_tautology` with ALL their statements, every `ProofThunk` expression over a thunk algebra, calls of the library lemmas
+by their index in `Gen.lemmaDefs`).  `Pi2/StageThm.lean` proves, and `stage_proofs_*` / `prover_proof_conclusion_is_literal`
+restate here, the second sentence of C09: every normal-form stage returns, on EVERY input of the advertised shape, proof
+objects that PROVE (`StageThm.Proves`: advertised conclusion literally = , the proof tree means it under the documented
+rules, every returning replay on the basic interpreter returns it) both implications between `conj_to_pattern` of its input
+and of its output; and `start_resolution_algorithm` / the final assembly of `prove_tautology` conclude the clause conjunction (or its
+refutation) / literally the pattern (or its negation), given what `prove_trivial_clause` and `build_proof_from_hint` promise
+about the proofs they return (the clause utilities and the reconstruction from the resolution hint are NOT translated: they
+are parameters of the generated functions, replayed per sample by the check).  The per-lemma facts are those of C10 (`C10.conc_stable`: every library lemma, at ALL arguments).
 -/
 namespace C09
 open Res
@@ -125,5 +138,94 @@ theorem prover_text_decides (fuel : Nat) (f : Form) :
     exact (_root_.prover_decides (n + 0) f).2.1 (hn 0)
   · obtain ⟨n, hn⟩ := TautTie.prove_tautology_sound fuel f _ h
     exact (_root_.prover_decides (n + 0) f).2.2 (hn 0)
+
+/-! ## the proof objects of the stages -/
+
+/-- every stage function, with ALL its statements, is covered by the translator -/
+theorem stage_proofs_translated : Gen.Stage.translated = true := StageThm.translated
+
+open StageThm StageSup TautTie in
+/-- stage 1, proof objects: on every propositional pattern `f` (recursion depth ≥ its size) `to_conj_form` as written returns
+the model's normal form with proofs of `pat -> new` and `new -> pat`; for Top / Bottom a single proof, of `pat` / `neg(pat)` -/
+theorem stage_proofs_conj_form (f : Form) (n : Nat) (hn : f.size ≤ n) :
+    ∃ (t1 : Lem.GTh) (o2 : Option Lem.GTh),
+      Gen.Stage.to_conj_form algGS n f = some (ofCF (CF.ofForm f), t1, o2) ∧
+      (if (CF.ofForm f).isBot then
+        o2 = none ∧ Proves t1 (if (CF.ofForm f).negated then toPat f else Lem.negP (toPat f))
+      else
+        Proves t1 (.imp (toPat f) (cfPat (ofCF (CF.ofForm f)))) ∧
+          ∃ t2, o2 = some t2 ∧ Proves t2 (.imp (cfPat (ofCF (CF.ofForm f))) (toPat f))) :=
+  StageThm.to_conj_form_proofs f n hn
+
+open StageThm StageSup TautTie in
+/-- stage 2, proof objects: on every OR/negation tree `propag_neg` as written returns the model's negation normal form with
+proofs of both implications between `conj_to_pattern(in)` and `conj_to_pattern(out)` -/
+theorem stage_proofs_propag_neg (c : CF) (n : Nat) (hn : depth c ≤ n) (hc : c.IsOrTree = true) :
+    ∃ (r : CF) (t1 t2 : Lem.GTh), CF.propagNeg c = some r ∧ r.IsNNF = true ∧
+      Gen.Stage.propag_neg algGS n (ofCF c) = some (ofCF r, t1, t2) ∧
+      Proves t1 (.imp (cfPat (ofCF c)) (cfPat (ofCF r))) ∧ Proves t2 (.imp (cfPat (ofCF r)) (cfPat (ofCF c))) := by
+  obtain ⟨r, hr, _, hs⟩ := CF.propagNeg_spec c hc
+  obtain ⟨t1, t2, h⟩ := StageThm.propag_neg_proofs c r n hn hr
+  exact ⟨r, t1, t2, hr, hs, h⟩
+
+open StageThm StageSup TautTie in
+/-- stage 3, proof objects: on every negation normal form, with `weight c` fuel, `to_cnf` as written returns the model's
+conjunctive normal form with proofs of both implications -/
+theorem stage_proofs_cnf (c : CF) (k : Nat) (hc : c.IsNNF = true) (hk : c.weight ≤ k) :
+    ∃ (r : CF) (t1 t2 : Lem.GTh), CF.toCnfF k c = some r ∧ r.IsCNF = true ∧
+      Gen.Stage.to_cnf algGS k (ofCF c) = some (ofCF r, t1, t2) ∧
+      Proves t1 (.imp (cfPat (ofCF c)) (cfPat (ofCF r))) ∧ Proves t2 (.imp (cfPat (ofCF r)) (cfPat (ofCF c))) := by
+  obtain ⟨r, hr, _⟩ := CF.toCnfF_weight c k hc hk
+  obtain ⟨t1, t2, h⟩ := StageThm.to_cnf_proofs c r k hc hr
+  exact ⟨r, t1, t2, hr, (CF.toCnfF_spec k c r hc hr).2, h⟩
+
+open StageThm StageSup TautTie in
+/-- stage 4, proof objects: on every conjunctive normal form `to_clauses` as written returns the model's clause list with
+proofs of both implications between `conj_to_pattern(in)` and `clause_conjunctionto_pattern(out)` -/
+theorem stage_proofs_clauses (c : CF) (n : Nat) (hn : depth c ≤ n) (hc : c.IsCNF = true) :
+    ∃ (cls : List (List Int)) (t1 t2 : Lem.GTh), CF.toClauses c = some cls ∧
+      Gen.Stage.to_clauses algGS n (ofCF c) = some (cls, t1, t2) ∧
+      Proves t1 (.imp (cfPat (ofCF c)) (clausesPat cls)) ∧ Proves t2 (.imp (clausesPat cls) (cfPat (ofCF c))) := by
+  obtain ⟨cls, hr, _⟩ := CF.toClauses_spec c hc
+  obtain ⟨t1, t2, h⟩ := StageThm.to_clauses_proofs c cls n hn hc hr
+  exact ⟨cls, t1, t2, hr, h⟩
+
+open StageThm StageSup in
+/-- `start_resolution_algorithm` as written, proof objects, at ANY fuel: verdict `True` comes with a proof of the clause
+conjunction (`top_intro`; the proofs of the trivial clauses conjoined by a RIGHT fold of `and_intro`), verdict `False` with a
+proof that the clause conjunction implies ⊥ — given what `prove_trivial_clause` and `build_proof_from_hint` promise
+(`PtcSpec`, `BpfhSpec`: their proof objects — the clause utilities and the reconstruction from the hint — are NOT translated;
+the check replays them per sample) -/
+theorem resolution_proof_conclusion
+    (ptc : Nat → List Int → Option Lem.GTh)
+    (bpfh : Nat → Hint → TautSup.FrozenSet → List (List Int) → Option (List Int × Lem.GTh))
+    (hp : PtcSpec ptc) (hb : BpfhSpec bpfh) (F : Nat) (cls : List (List Int)) (b : Bool) (th : Lem.GTh)
+    (h : Gen.Stage.start_resolution_algorithm algGS ptc bpfh F cls = some (some (b, th))) :
+    Proves th (if b then clausesPat cls else .imp (clausesPat cls) Lem.botP) :=
+  StageThm.start_resolution_algorithm_proofs ptc bpfh hp hb F cls b th h
+
+open StageThm StageSup in
+/-- the final assembly: at ANY fuel, whatever `prove_tautology` as written returns with verdict `True` proves literally the
+pattern, with verdict `False` literally its negation (same two hypotheses) -/
+theorem prover_proof_conclusion_is_literal
+    (ptc : Nat → List Int → Option Lem.GTh)
+    (bpfh : Nat → Hint → TautSup.FrozenSet → List (List Int) → Option (List Int × Lem.GTh))
+    (hp : PtcSpec ptc) (hb : BpfhSpec bpfh) (n : Nat) (f : Form) (b : Bool) (th : Lem.GTh)
+    (h : Gen.Stage.prove_tautology algGS ptc bpfh n f = some (some (b, th))) :
+    Proves th (if b then toPat f else Lem.negP (toPat f)) :=
+  StageThm.prove_tautology_proofs ptc bpfh hp hb n f b th h
+
+open StageThm StageSup TautTie in
+/-- the data component of the generated stage functions is the data slice (same source text, read twice) -/
+theorem stage_data_is_the_data_slice :
+    (∀ (f : Form) (n : Nat), f.size ≤ n →
+      (Gen.Stage.to_conj_form algGS n f).map (fun r => (r.1, (), r.2.2.map fun _ => ())) = Gen.PyTaut.to_conj_form n f) ∧
+    (∀ (c r : CF) (n : Nat), depth c ≤ n → CF.propagNeg c = some r →
+      (Gen.Stage.propag_neg algGS n (ofCF c)).map erase3 = Gen.PyTaut.propag_neg n (ofCF c)) ∧
+    (∀ (c r : CF) (k : Nat), c.IsNNF = true → CF.toCnfF k c = some r →
+      (Gen.Stage.to_cnf algGS k (ofCF c)).map erase3 = Gen.PyTaut.to_cnf k (ofCF c)) ∧
+    (∀ (c : CF) (cls : List (List Int)) (n : Nat), depth c ≤ n → c.IsCNF = true → CF.toClauses c = some cls →
+      (Gen.Stage.to_clauses algGS n (ofCF c)).map erase3 = Gen.PyTaut.to_clauses n (ofCF c)) :=
+  ⟨StageThm.to_conj_form_data, StageThm.propag_neg_data, StageThm.to_cnf_data, StageThm.to_clauses_data⟩
 
 end C09
